@@ -349,3 +349,163 @@ Lemma byval_same_events :
   let s := run false 8 (init [2]) f10_events in
   map got (cons s) = [[[65;65;65]%N]].
 Proof. vm_compute. reflexivity. Qed.
+
+(* ================================================================== websocket-out: hub -> feed client *)
+
+Lemma wrun_snoc msg_at wcap evs e : wrun msg_at wcap (evs ++ [e]) = wstep msg_at wcap (wrun msg_at wcap evs) e.
+Proof. unfold wrun. rewrite fold_left_app. reflexivity. Qed.
+
+Lemma chain_snoc l : forall lo n, chain lo l n -> chain lo (l ++ [n]) (S n).
+Proof.
+  induction l as [|x r IH]; intros lo n H; cbn [app chain] in *.
+  - split; [exact H|apply le_n].
+  - destruct H as [H1 H2]. split; [exact H1|apply IH; exact H2].
+Qed.
+
+Lemma chain_mono l : forall lo n m, chain lo l n -> n <= m -> chain lo l m.
+Proof.
+  induction l as [|x r IH]; intros lo n m H L; cbn [chain] in *; [lia|].
+  destruct H as [H1 H2]. split; [exact H1|eapply IH; eassumption].
+Qed.
+
+Lemma chain_app_l a : forall b lo hi, chain lo (a ++ b) hi -> exists mid, chain lo a mid /\ mid <= hi.
+Proof.
+  induction a as [|x a IH]; intros b lo hi H; cbn [app chain] in *.
+  - exists lo. split; [apply le_n|].
+    revert lo H. induction b as [|y b IHb]; intros lo H; cbn [chain] in H; [exact H|].
+    destruct H as [H1 H2]. specialize (IHb _ H2). lia.
+  - destruct H as [H1 H2]. destruct (IH _ _ _ H2) as [mid [Hm Hl]]. exists mid. split; [split; assumption|exact Hl].
+Qed.
+
+Section WsOutProofs.
+  Variable msg_at : nat -> bytes.
+  Variable wcap : nat.
+  Notation wstep := (wstep msg_at wcap).
+  Notation wrun := (wrun msg_at wcap).
+
+  Definition part_ok (p : part) : Prop := snd p = msg_at (fst p).
+
+  Definition winv (s : wst) : Prop :=
+    chain 0 (map fst (wflat s)) (wnext s) /\ Forall part_ok (wflat s) /\ (wcap = 0 -> wq s = []).
+
+  Lemma wflat_snoc_q n q c fr p : wflat (mkw n (q ++ [p]) c fr) = wflat (mkw n q c fr) ++ [p].
+  Proof. unfold wflat. cbn [wframes wcur wq]. rewrite !app_assoc. reflexivity. Qed.
+
+  Lemma winv_step s e : winv s -> winv (wstep s e).
+  Proof.
+    intros [Hc [Hp Hq]]. destruct e as [|n| |]; cbn [Ingest.wstep].
+    - (* WOffer *)
+      destruct wcap as [|c] eqn:Ecap.
+      + specialize (Hq eq_refl). destruct (wcur s) as [f|] eqn:Ecur.
+        * split; [|split]; [| |intros _; exact Hq].
+          -- unfold wflat in *. cbn [wframes wcur wq wnext]. rewrite Ecur in Hc. eapply chain_mono; [exact Hc|lia].
+          -- unfold wflat in *. cbn [wframes wcur wq]. rewrite Ecur in Hp. exact Hp.
+        * assert (E : wflat (mkw (S (wnext s)) (wq s) (Some [(wnext s, msg_at (wnext s))]) (wframes s))
+                      = wflat s ++ [(wnext s, msg_at (wnext s))]).
+          { unfold wflat. cbn [wframes wcur wq]. rewrite Ecur, Hq. cbn [app]. rewrite !app_nil_r. reflexivity. }
+          split; [|split]; [| |intros _; exact Hq].
+          -- rewrite E, map_app. cbn [map fst wnext]. apply chain_snoc. exact Hc.
+          -- rewrite E. apply Forall_app. split; [exact Hp|constructor; [reflexivity|constructor]].
+      + destruct (length (wq s) <? S c).
+        * split; [|split]; [| |intros H; congruence].
+          -- rewrite wflat_snoc_q, map_app. cbn [map fst wnext]. apply chain_snoc.
+             replace (wflat (mkw (S (wnext s)) (wq s) (wcur s) (wframes s))) with (wflat s) by reflexivity. exact Hc.
+          -- rewrite wflat_snoc_q. apply Forall_app. split; [exact Hp|constructor; [reflexivity|constructor]].
+        * split; [|split]; [| |intros H; congruence].
+          -- change (wflat (mkw (S (wnext s)) (wq s) (wcur s) (wframes s))) with (wflat s). cbn [wnext].
+             eapply chain_mono; [exact Hc|lia].
+          -- exact Hp.
+    - (* WMiss *)
+      split; [|split]; [| |exact Hq].
+      + change (wflat (mkw (wnext s + n) (wq s) (wcur s) (wframes s))) with (wflat s). cbn [wnext].
+        eapply chain_mono; [exact Hc|lia].
+      + exact Hp.
+    - (* WFirst *)
+      destruct (wcur s) as [f|] eqn:Ecur; [split; [|split]; assumption|].
+      destruct (wq s) as [|p r] eqn:Eq; [split; [|split]; [exact Hc|exact Hp|intros _; exact Eq]|].
+      assert (E : wflat (mkw (wnext s) r (Some [p]) (wframes s)) = wflat s).
+      { unfold wflat. cbn [wframes wcur wq]. rewrite Ecur, Eq. reflexivity. }
+      split; [|split]; [rewrite E; exact Hc|rewrite E; exact Hp|].
+      intros H. specialize (Hq H). discriminate.
+    - (* WRest *)
+      destruct (wcur s) as [f|] eqn:Ecur; [|split; [|split]; assumption].
+      assert (E : wflat (mkw (wnext s) [] None (wframes s ++ [f ++ wq s])) = wflat s).
+      { unfold wflat. cbn [wframes wcur wq]. rewrite Ecur, concat_app. cbn [concat app]. repeat rewrite app_nil_r. repeat rewrite <- app_assoc. reflexivity. }
+      split; [|split]; [rewrite E; exact Hc|rewrite E; exact Hp|intros _; reflexivity].
+  Qed.
+
+  Lemma winv_run evs : winv (wrun evs).
+  Proof.
+    induction evs as [|e evs IH] using rev_ind.
+    - split; [|split]; cbn; [apply le_n|constructor|reflexivity].
+    - rewrite wrun_snoc. apply winv_step. exact IH.
+  Qed.
+
+  Lemma Forall_concat_parts (fs : list (list part)) :
+    Forall part_ok (concat fs) -> Forall (fun f => frame_bytes f = concat (map msg_at (map fst f))) fs.
+  Proof.
+    induction fs as [|f fs IH]; intros H; [constructor|].
+    cbn [concat] in H. apply Forall_app in H. destruct H as [Hf Hr]. constructor; [|apply IH; exact Hr].
+    unfold frame_bytes. f_equal. clear -Hf. induction Hf as [|p l Hp Hl IHl]; [reflexivity|].
+    cbn [map]. rewrite IHl. unfold part_ok in Hp. rewrite Hp. reflexivity.
+  Qed.
+
+  (* every websocket message written is made of hub messages of the topic, unmodified; over all websocket
+     messages the parts appear in stream order: forward only, none twice *)
+  Lemma wsout_frames_in_stream_order evs :
+    let s := wrun evs in
+    (exists hi, chain 0 (map fst (concat (wframes s))) hi /\ hi <= wnext s) /\
+    Forall (fun f => frame_bytes f = concat (map msg_at (map fst f))) (wframes s).
+  Proof.
+    intros s. destruct (winv_run evs) as [Hc [Hp _]]. fold s in Hc, Hp. unfold wflat in Hc, Hp. split.
+    - rewrite map_app in Hc. apply chain_app_l in Hc. exact Hc.
+    - apply Forall_app in Hp. destruct Hp as [Hp _]. apply Forall_concat_parts. exact Hp.
+  Qed.
+
+  (* a websocket message whose parts are consecutive hub messages is that piece of the stream *)
+  Lemma wsout_consecutive_frame_is_slice evs f k :
+    In f (wframes (wrun evs)) -> map fst f = seq k (length f) ->
+    frame_bytes f = concat (map msg_at (seq k (length f))).
+  Proof.
+    intros Hin Hk. destruct (wsout_frames_in_stream_order evs) as [_ H].
+    rewrite Forall_forall in H. rewrite (H f Hin), Hk. reflexivity.
+  Qed.
+
+  (* the code as it is (unbuffered Send): every websocket message is exactly one hub message *)
+  Definition single (f : list part) : Prop := exists k, f = [(k, msg_at k)].
+
+  Lemma wsout_unbuffered_single evs : wcap = 0 -> Forall single (wframes (wrun evs)).
+  Proof.
+    intros H0.
+    assert (H : wq (wrun evs) = [] /\ match wcur (wrun evs) with Some f => single f | None => True end
+                /\ Forall single (wframes (wrun evs))).
+    { induction evs as [|e evs IH] using rev_ind; [split; [|split]; [reflexivity|exact I|constructor]|].
+      rewrite wrun_snoc. destruct IH as [Hq [Hc Hf]]. set (s := wrun evs) in *.
+      destruct e as [|n| |]; cbn [Ingest.wstep]; rewrite ?H0.
+      - destruct (wcur s) as [f|] eqn:Ecur; cbn [wq wcur wframes]; (split; [exact Hq|split; [|exact Hf]]).
+        + try try rewrite Ecur; exact Hc.
+        + eexists. reflexivity.
+      - cbn [wq wcur wframes]. split; [exact Hq|split; assumption].
+      - destruct (wcur s) as [f|] eqn:Ecur.
+        + split; [exact Hq|split; [try rewrite Ecur; exact Hc|exact Hf]].
+        + rewrite Hq. split; [exact Hq|split; [try rewrite Ecur; exact I|exact Hf]].
+      - destruct (wcur s) as [f|] eqn:Ecur.
+        + cbn [wq wcur wframes]. split; [reflexivity|split; [exact I|]].
+          apply Forall_app. split; [exact Hf|]. constructor; [|constructor]. rewrite Hq, app_nil_r. exact Hc.
+        + split; [exact Hq|split; [try rewrite Ecur; exact I|exact Hf]]. }
+    apply H.
+  Qed.
+End WsOutProofs.
+
+(* a Send channel of capacity 2 ("like rwc's destination clients"): the appending loop of writePump glues
+   hub messages from either side of a dropped one into one websocket message *)
+Definition glue_events : list wev := [WOffer; WOffer; WOffer; WFirst; WOffer; WRest].
+
+Lemma wsout_buffered_glues_across_drop :
+  let s := wrun (fun k => [N.of_nat k]) 2 glue_events in
+  map (map fst) (wframes s) = [[0; 1; 3]] /\ map frame_bytes (wframes s) = [[0; 1; 3]%N].
+Proof. vm_compute. split; reflexivity. Qed.
+
+Lemma wsout_unbuffered_same_events :
+  map (map fst) (wframes (wrun (fun k => [N.of_nat k]) 0 glue_events)) = [[0]].
+Proof. vm_compute. reflexivity. Qed.
